@@ -45,6 +45,26 @@ CHECKS = {
             'Every single and pairwise departure over the full value domain of every field, every primitive name, every single-field deletion, '
             'x 5 valid databases: refused loudly or every answer correct; a needed-but-missing field must be refused at build time.',
             'Triples only for length fields (thorough); databases valid for the configuration only.', 'DESIGN.md 4/C08'),
+    'C09': ('E3', 'exhaustive enumeration of client-reload / server-restart placements on the virtual network (real client, server, websockets)',
+            'All 9 schemes x 2 JSON databases x all 2^6 keep/reload placements over the workflow boundaries x 3 server-restart options; every '
+            'keyword and an absent keyword searched twice; delivered bytes, hex/int/raw/utf8 renderings compared with the JSON database.',
+            'One client at a time, hence no scheduling choices; in-memory transport (loopback-TCP replays: mc/loopback.py).', 'DESIGN.md 4/C09'),
+    'C10': ('E2', 'explicit-state BFS to fixpoint + all histories to depth k over the real connection handler on the virtual network, 3-state reference model',
+            'Alphabet of 9 protocol events (two configs, two indexes, search, reconnect before/after the cleanup delay, foreign sid, unknown type) '
+            'applied to every reachable canonical state (model + files + active Service snapshot + registry + timers); all histories of length <= 4 (5) without dedup.',
+            'One connection at a time; canonical state abstracts the number of stale cleanup timers to 0/1/several.', 'DESIGN.md 4/C10'),
+    'C11': ('E2', 'explicit-state BFS to fixpoint + all histories to depth k over the real client Service (fresh object per command) against a live server, 5-flag reference model',
+            'Alphabet of 7 client operations incl. an uninstantiable configuration; every reachable flag set x every operation; all histories of '
+            'length <= 4 (6); refusal leaves files byte-identical; persisted flags; key bytes write-once; searches after upload.',
+            'PiBas (thorough: + CT14); operations before any create use a well-formed unknown sid as the CLI would.', 'DESIGN.md 4/C11'),
+    'C12': ('E3', 'stateless exploration of all delivery/timer schedules (deviation-bounded for 3 connections) of the real server under scripted raw connections',
+            'Every ordered pair of 5 scripts x 3 initial durable states: ALL schedules (no cap hit in quick); 6 triples x 3 states with <= 1 (3) '
+            'deviations; oracles O1-O5 (serialisation at the instant of each server write, monotone durable state, single acknowledgement, control notice, no stuck request).',
+            'Timer rule (only <= 2 s timers are schedulable), per-connection FIFO, client-bound frames eager; 3 connections only deviation-bounded.', 'DESIGN.md 4/C12'),
+    'C13': ('E4', 'exhaustive crash-point enumeration (kill one component before/after every file-system mutation) on the virtual network with a crash file system',
+            'Every mutation inside the persisting handlers named by the property x {before, after}, for a small and a multi-chunk PiBas workflow '
+            '(thorough: + Pi2Lev, DP17): survivor runs on, dead component restarted on the same directory, probe handshake, client reload, retry rule, rest of the workflow, final searches.',
+            'Crash model of the property (no write reordering, no torn 8 KiB chunk); SIGKILL replays of the interposer: mc/loopback.py.', 'DESIGN.md 4/C13'),
     'C14': ('E1', 'exhaustive enumeration of message lengths x key sizes vs independent AES-CBC/PKCS7 computation',
             'All message lengths 0..80 (0..300 + long) x 3 key sizes x 3 keys; declared-length variants; all wrong key lengths 0..40; constructor domain.',
             'cryptography\'s AES is the trusted reference; keys are DRBG values.', 'DESIGN.md 4/C14'),
